@@ -320,9 +320,12 @@ func verifModelBinaryWrite(w io.Writer, order binary.ByteOrder, data any) error 
 //@ requires forall r ref :: {muHeld(r)} muHeld(r) == 0 [C11]
 //@ thin
 //@ requires !fsExists(path)
-//@ requires dropsInRange(segmentBases, drops)
+//@ wf requires dropsInRange(segmentBases, drops)
 //@ propagates err from os.OpenFile, mergeToWriter, persistFooter, (*bufio.Writer).Flush, (*os.File).Sync, (*os.File).Close [C17,C18,C19]
 //@ assert os.OpenFile#1 : $name == path && ($flag == 66 || $flag == 578) [C04,C05,C17]
+// the merge writes through the buffered writer: its first write error is sticky and surfaces in the checked Flush, which
+// the unchecked writes of the fields section rely on
+//@ assert NewCountHashWriterWithStatsReporter#1 : typeis($w, ptr_bufio_DOT_Writer) && ptr_bufio_DOT_Writer(payload($w)) == br [C17]
 //@ assert persistFooter#1 : typeis($writerIn, ptr_CountHashWriter) && payload($writerIn) == cr && $crcBeforeFooter == cr.crc && $chunkMode == chunkMode && $numDocs == numDocs && $storedIndexOffset == storedIndexOffset && $sectionsIndexOffset == sectionsIndexOffset && $fieldsIndexOffset == sectionsIndexOffset && $docValueOffset == 0 [C04,C05]
 //@ ensures err != nil ==> !fsExists(path) [C17,C18,C19]
 //@ ensures $liveFiles == old($liveFiles) [C17,C18]
@@ -439,6 +442,10 @@ func verifModelBinaryWrite(w io.Writer, order binary.ByteOrder, data any) error 
 //@ pkgstate NewSegmentBufferNumResultsBump readonly sizing knob of the embedding application
 //@ pkgstate NewSegmentBufferAvgBytesPerDocFactor readonly sizing knob of the embedding application
 //@ pkgstate DefaultFileMergerBufferSize readonly sizing knob of the embedding application
+//@ pkgstate emptyDictionary readonly shared sentinel: a dictionary of nothing
+//@ pkgstate emptyThesaurus readonly shared sentinel: a thesaurus of nothing
+//@ pkgstate emptyDictionaryIterator readonly shared sentinel: an enumeration over nothing
+//@ pkgstate emptyThesaurusIterator readonly shared sentinel: an enumeration over nothing
 //@ pkgstate isFieldExcludedFromInvertedTextIndexSection readonly function variable set at package init
 //@ pkgstate invertedTextIndexSectionExclusionChecks readonly list of exclusion checks, appended to by init() of the sections only
 //@ pkgstate visitDocumentCtxPool mutable sync.Pool of visit contexts (ghost protocol poolOwned / poolBalance)
@@ -1476,6 +1483,15 @@ func lemmaUvLenRange(a []byte, o int) {}
 //@ ensures base(idxs) == old(base(m.lowIdxs)) && off(idxs) == old(off(m.lowIdxs)) && len(idxs) == old(len(m.lowIdxs)) && len(values) == len(idxs) [C06,C08,C09]
 //@ end
 
+// closing an enumeration closes every input and reports the first error
+//@ func (*enumerator).Close returns (err)
+//@ thin
+//@ tags [C17]
+//@ wf requires m != nil
+//@ loop 1 step prev(rv) != nil ==> rv == prev(rv) [C17]
+//@ loop 1 nobreak [C17]
+//@ end
+
 // the first step of an enumeration skips nothing (an input whose first key is the empty key is live)
 //@ func newEnumerator returns (e, err)
 //@ thin
@@ -1617,6 +1633,24 @@ func lemmaUvLenRange(a []byte, o int) {}
 //@ end
 
 // ---- C03 / C09: a field's doc-value block and its reader ----
+// a content coder is sized for maxDocNum/chunkSize + 1 chunks, writes to the writer it was given and starts (or restarts)
+// at chunk 0 with nothing buffered and every chunk length zero
+//@ func newChunkedContentCoder returns (rv)
+//@ thin
+//@ tags [C03,C09]
+//@ ensures rv != nil && fresh(rv) && rv.chunkSize == chunkSize && rv.w == w && rv.progressiveWrite == progressiveWrite && rv.currChunk == 0 && len(rv.chunkMeta) == 0 [C03,C09]
+//@ ensures chunkSize >= 1 && maxDocNum / chunkSize <= 0x3ffffffffffffff0 ==> len(rv.chunkLens) == int(maxDocNum / chunkSize) + 1 [C03,C09]
+//@ end
+
+//@ func (*chunkedContentCoder).Reset
+//@ thin
+//@ tags [C03,C10]
+//@ wf requires c != nil
+//@ loop 1 invariant 0 <= $k && c.chunkLens == old(c.chunkLens) && (forall j int :: {c.chunkLens[j]} 0 <= j && j < $k && j < len(c.chunkLens) ==> c.chunkLens[j] == 0) [C03,C10]
+//@ ensures c.currChunk == 0 && c.bytesWritten == 0 && len(c.final) == 0 && len(c.chunkMeta) == 0 && len(c.chunkBuf.buf) == 0 && c.chunkBuf.off == 0 && len(c.chunkMetaBuf.buf) == 0 && c.chunkMetaBuf.off == 0 [C03,C10]
+//@ ensures forall j int :: {c.chunkLens[j]} 0 <= j && j < len(c.chunkLens) ==> c.chunkLens[j] == 0 [C03,C10]
+//@ end
+
 // layout: the compressed chunks, one end offset per chunk as varints, then two fixed 8-byte numbers - the length of that
 // offset table and the number of chunks
 //@ func (*chunkedContentCoder).Write returns (tw, err)
@@ -1648,6 +1682,10 @@ func lemmaUvLenRange(a []byte, o int) {}
 
 // the doc-value replay used by merges: every chunk of the reader, in order; within a chunk every header entry, each
 // with the bytes between the previous entry's end offset and its own
+//@ func (*docValueReader).iterateAllDocValues.visitor(docNum, terms) returns (err)
+//@ trusted
+//@ modifies *
+//@ end
 //@ func (*docValueReader).iterateAllDocValues returns (err)
 //@ thin
 //@ tags [C03,C06]
@@ -1656,6 +1694,10 @@ func lemmaUvLenRange(a []byte, o int) {}
 //@ assert (*docValueReader).loadDvChunk#1 : int($chunkNumber) == i && $s == s && $di == di [C03,C06]
 //@ assert github.com/golang/snappy.Decode#1 : base($src) == base(di.curChunkData) && off($src) == off(di.curChunkData) && len($src) == len(di.curChunkData) [C03,C06]
 //@ loop 1 step i == prev(i) + 1 [C03,C06]
+// within a chunk the first entry's bytes start at offset 0 of the chunk's decoded data, every later one where the
+// previous entry ended; the visitor gets the entry's own document number
+//@ assert (*docValueReader).iterateAllDocValues.visitor#1 : $docNum == entry.DocNum && base($terms) == base(uncompressed) && (start <= 0x3fffffffffffffff ==> off($terms) == off(uncompressed) + int(start)) && ($k == 0 ==> start == 0) [C03,C06,C09]
+//@ loop 2 invariant $k == 0 ==> start == 0 [C03,C06,C09]
 //@ loop 1 early err != nil [C03,C06]
 //@ end
 
@@ -1681,6 +1723,89 @@ func lemmaUvLenRange(a []byte, o int) {}
 //@ assert encoding/binary.PutUvarint#3 : int($x) == len(term) [C09,C12,C13]
 //@ assert (*CountHashWriter).Write#4 : len($b) == len(term) [C09,C12,C13]
 //@ propagates err from (*CountHashWriter).Write [C17]
+//@ end
+
+// ---- C08 / C12: public entry points hand their arguments through unchanged ----
+// an enumeration over a dictionary is bound to that dictionary and to the FST search for exactly the caller's automaton
+// and key range; "no matches" (ErrIteratorDone at once) is not an error; a dictionary without an FST enumerates nothing
+//@ func (*Dictionary).AutomatonIterator returns (it)
+//@ thin
+//@ tags [C08]
+//@ wf requires d != nil
+//@ assert (*vellum.FST).Search#1 : $f == d.fst && $aut == a && base($startKeyInclusive) == base(startKeyInclusive) && len($startKeyInclusive) == len(startKeyInclusive) && base($endKeyExclusive) == base(endKeyExclusive) && len($endKeyExclusive) == len(endKeyExclusive) [C08]
+//@ ensures old(d.fst) == nil ==> typeis(it, ptr_DictionaryIterator) && ptr_DictionaryIterator(payload(it)) == emptyDictionaryIterator [C08]
+//@ ensures old(d.fst) != nil ==> typeis(it, ptr_DictionaryIterator) && ptr_DictionaryIterator(payload(it)) != nil && fresh(ptr_DictionaryIterator(payload(it))) && ptr_DictionaryIterator(payload(it)).d == d && ptr_DictionaryIterator(payload(it)).err != vellum.ErrIteratorDone [C08]
+//@ end
+
+//@ func (*Dictionary).PostingsList returns (r, err)
+//@ thin
+//@ tags [C07,C08]
+//@ wf requires d != nil && (d.fstReader != nil ==> rdFst(d.fstReader) == d.fst)
+//@ assert (*Dictionary).postingsList#1 : $d == d && $except == except && base($term) == base(term) && off($term) == off(term) && len($term) == len(term) && (typeis(prealloc, ptr_PostingsList) && ptr_PostingsList(payload(prealloc)) != nil ==> $rv == ptr_PostingsList(payload(prealloc))) && (!typeis(prealloc, ptr_PostingsList) ==> $rv == nil) [C07,C08]
+//@ end
+
+//@ func (*Thesaurus).AutomatonIterator returns (it)
+//@ thin
+//@ tags [C12]
+//@ wf requires t != nil
+//@ assert (*vellum.FST).Search#1 : $f == t.fst && $aut == a && base($startKeyInclusive) == base(startKeyInclusive) && len($startKeyInclusive) == len(startKeyInclusive) && base($endKeyExclusive) == base(endKeyExclusive) && len($endKeyExclusive) == len(endKeyExclusive) [C12]
+//@ ensures old(t.fst) == nil ==> typeis(it, ptr_ThesaurusIterator) && ptr_ThesaurusIterator(payload(it)) == emptyThesaurusIterator [C12]
+//@ ensures old(t.fst) != nil ==> typeis(it, ptr_ThesaurusIterator) && ptr_ThesaurusIterator(payload(it)) != nil && fresh(ptr_ThesaurusIterator(payload(it))) && ptr_ThesaurusIterator(payload(it)).t == t && ptr_ThesaurusIterator(payload(it)).err != vellum.ErrIteratorDone [C12]
+//@ end
+
+//@ func (*Thesaurus).SynonymsList returns (r, err)
+//@ thin
+//@ tags [C12]
+//@ wf requires t != nil
+//@ assert (*Thesaurus).synonymsList#1 : $t == t && $except == except && base($term) == base(term) && off($term) == off(term) && len($term) == len(term) && (typeis(prealloc, ptr_SynonymsList) && ptr_SynonymsList(payload(prealloc)) != nil ==> $rv == ptr_SynonymsList(payload(prealloc))) && (!typeis(prealloc, ptr_SynonymsList) ==> $rv == nil) [C12]
+//@ end
+
+// a field without a dictionary (or a name that is not a thesaurus) gives the shared empty object, never a nil one
+//@ func (*SegmentBase).Dictionary returns (d, err)
+//@ thin
+//@ tags [C08]
+//@ wf requires s != nil
+//@ requires muHeld(s.m) == 0 [C08,C11]
+//@ assert (*SegmentBase).dictionary#1 : $sb == s && $field == field [C08]
+//@ local ensures err == nil && dict == nil ==> typeis(d, ptr_Dictionary) && ptr_Dictionary(payload(d)) == emptyDictionary [C08]
+//@ local ensures dict != nil ==> typeis(d, ptr_Dictionary) && ptr_Dictionary(payload(d)) == dict [C08]
+//@ end
+
+//@ func (*SegmentBase).Thesaurus returns (th, err)
+//@ thin
+//@ tags [C12]
+//@ wf requires s != nil && s.synIndexCache != nil
+//@ requires muHeld(s.synIndexCache.m) == 0 [C11,C12]
+//@ assert (*SegmentBase).thesaurus#1 : $sb == s && $name == name [C12]
+//@ local ensures err == nil && thesaurus == nil ==> typeis(th, ptr_Thesaurus) && ptr_Thesaurus(payload(th)) == emptyThesaurus [C12]
+//@ local ensures thesaurus != nil ==> typeis(th, ptr_Thesaurus) && ptr_Thesaurus(payload(th)) == thesaurus [C12]
+//@ end
+
+// a thesaurus enumeration yields the current key of the underlying FST iterator and then advances it; a stored error
+// (other than exhaustion) is reported, exhaustion ends the enumeration without an error
+//@ func (*ThesaurusIterator).Next returns (e, err)
+//@ thin
+//@ tags [C12]
+//@ wf requires i != nil
+//@ ensures old(i.err) != nil && old(i.err) != vellum.ErrIteratorDone ==> e == nil && err == old(i.err) [C12]
+//@ ensures (old(i.err) == nil || old(i.err) == vellum.ErrIteratorDone) && (old(i.itr) == nil || old(i.err) == vellum.ErrIteratorDone) ==> e == nil && err == nil [C12]
+//@ ensures e != nil ==> err == nil && i.entry.Term == old(vitKey(i.itr)) [C12]
+//@ assert vellum.Iterator.Next#1 : $this == i.itr [C12]
+//@ end
+
+// ---- C05 / C11: the plugin's Merge works on the segments themselves ----
+// entry k handed to the merge is input k's own SegmentBase - for an opened segment the one embedded in it, never a copy
+// (a copy would carry a private mutex next to the shared FST cache)
+//@ func (*ZapPlugin).Merge returns (maps, size, err)
+//@ thin
+//@ tags [C05,C11]
+// (the caller holds no lock, the output path is fresh and every deletion bitmap stays within its segment: the
+// preconditions of mergeSegmentBases, passed on to the caller of the public entry point)
+//@ requires forall r ref :: {muHeld(r)} muHeld(r) == 0 [C11]
+//@ requires !fsExists(path)
+//@ loop 1 step 0 <= segmenti && segmenti < len(segmentBases) && typeis(segment, ptr_Segment) && ptr_Segment(payload(segment)) != nil ==> segmentBases[segmenti] == addr(ptr_Segment(payload(segment)).SegmentBase) [C05,C11]
+//@ loop 1 step 0 <= segmenti && segmenti < len(segmentBases) && typeis(segment, ptr_SegmentBase) ==> segmentBases[segmenti] == ptr_SegmentBase(payload(segment)) [C05,C11]
+//@ assert mergeSegmentBases#1 : $segmentBases == segmentBases && $drops == drops && $path == path && $chunkMode == DefaultChunkMode && $closeCh == closeCh [C05,C18]
 //@ end
 
 // ---- C12: thesaurus lookups ----
@@ -2131,7 +2256,7 @@ func lemmaSynonymCodeRoundTrip(synonymID, docID uint32) {
 //@ assert getChunkSize#1 : $chunkMode == LegacyChunkMode [C03,C09]
 // a visit state handed in from another segment - or one that was never bound - gets a new reader table before it is used:
 // every reader consulted below was cloned from this segment's readers
-//@ assert getChunkSize#1 : typeis(dvsIn, ptr_docVisitState) && ptr_docVisitState(payload(dvsIn)) != nil && old(ptr_docVisitState(payload(dvsIn)).segment) != s ==> fresh(dvs.dvrs) [C03]
+//@ assert getChunkSize#1 : typeis(dvsIn, ptr_docVisitState) && ptr_docVisitState(payload(dvsIn)) != nil && old(ptr_docVisitState(payload(dvsIn)).segment) != s ==> fresh(dvs.dvrs) [C03,C11]
 //@ end
 
 //@ func (*SegmentBase).VisitableDocValueFields returns (names, err)
@@ -2242,6 +2367,9 @@ func lemmaSynonymCodeRoundTrip(synonymID, docID uint32) {
 //@ tags [C08]
 //@ requires d != nil
 //@ ensures d.fst == nil ==> !ok && err == nil
+// membership is the FST's answer for exactly the caller's key - the empty key included
+//@ assert (*vellum.FST).Contains#1 : $f == d.fst && base($val) == base(key) && off($val) == off(key) && len($val) == len(key) [C08]
+//@ ensures d.fst != nil && err == nil ==> ok == fstHas(d.fst, str(key)) [C08]
 //@ end
 
 //@ func (*Dictionary).Cardinality returns (n)
